@@ -120,13 +120,14 @@ CHECKS["C05"] = dict(
           "(free-node equations of magnetostatics and of the time-harmonic complex system, prescribed A(x,y) with phase, "
           "magnets, point currents, mixed BC, per-label circuit records = applied density, total current per circuit "
           "region) is decided per run by an independent SI assembly on the .ans the real fsolver wrote. The WHOLE first pass "
-          "of Static2D for planar problems (Model/MSolver.lean: circuit integrals and the voltage-gradient / flat-density "
+          "of Static2D and of StaticAxisymmetric (Model/MSolver.lean: circuit integrals and the voltage-gradient / flat-density "
           "decision, element matrices Mx My Mxy, mixed boundary terms, current-density and magnetisation sources, "
           "first-pass permeabilities, AddTo accumulation, point currents, prescribed potentials at points and along "
           "segments in cartesian and polar form through SetValue, (anti)periodic ties) is compared bit for bit with the "
           "system the real solver hands to PCGSolve (hook dump), and its permeability, circuit-case and prescription "
-          "functions are proved equal to the laws above. PARTIAL: the axisymmetric and time-harmonic assemblies and later "
-          "Newton passes are not modelled; air-gap elements and incremental materials are outside the model."),
+          "functions are proved equal to the laws above; for the axisymmetric model the absolute 1e-6 cm thresholds that select "
+          "the closed forms of R_hat are stated as theorems (mechanism of the C10 known finding). PARTIAL: the time-harmonic "
+          "assemblies and later Newton passes are not modelled; air-gap elements and incremental materials are outside the model."),
     design_ref="DESIGN.md section 3, C05",
     technique="Lean 4 proof (field identities for lamination and circuit formulas, shared element-level refinement) + element-permeability correspondence + independent weak-form oracle (static and complex harmonic) on solver output",
 )
